@@ -101,28 +101,22 @@ def check(ctx):
     mc = model_check(ctx)
     tlc_scripts, gstats = generate(ctx)
     build_s = cargo_build(ctx, ["notif"])
-    rng = random.Random(ctx.seed + 12)
-    nrand = 60 if ctx.quick() else 4000
-    scripts = nu.stream_families(ctx.seed, ctx.tier) + tlc_scripts + [nu.stream_random_script(rng, i, ctx.seed) for i in range(nrand)]
+    nrand = 60 if ctx.quick() else 2400
+    scripts, skipped = nu.transport_plan(ctx, nu.stream_families(ctx.seed, ctx.tier), tlc_scripts,
+                                         lambda i: nu.stream_random_script(random.Random(ctx.seed * 1000033 + i), i, ctx.seed), nrand)
     ctx.scripts_by_id = {s["id"]: s for s in scripts}
-    lines, summs = [], []
-    batch = 400
-    for b in range(0, len(scripts), batch):
-        summ, ls = nu.run_scripts(ctx, scripts[b:b + batch], "s%d" % b, threads=100)
-        summs.append(summ)
-        lines += ls
-        log("HARNESS batch %d: %s (build %ss)" % (b // batch, summ, build_s))
-    if sum(s["harness_panics"] for s in summs) or sum(s["connect_failed"] for s in summs) > len(scripts) // 10:
-        raise ToolError("harness trouble: %s" % summs)
+    lines, summs = nu.run_batches(ctx, scripts, "s", build_s)
     segs, info, nseg, nev, rejects = validate(ctx, lines)
     violations = collect(ctx, rejects)
     nu.save_known_repros(ctx, violations)
     cov = evidence(mc, gstats, summs, segs, info, nseg, nev, scripts)
+    cov["families_not_run_per_transport"] = skipped
     return conclude(ctx, "model_checking", cov, violations, ASSUME)
 
 
 def evidence(mc, gstats, summs, segs, info, nseg, nev, scripts):
     res, sizes, distinct, waited = {}, {}, set(), 0
+    per_tr, pt = {}, None
     cur = []
     full_end = 0
     for ln in segs:
@@ -131,23 +125,33 @@ def evidence(mc, gstats, summs, segs, info, nseg, nev, scripts):
             if cur:
                 distinct.add(hash(tuple(cur)))
             cur = [(d["sync"], d["async"], d["max"])]
+            pt = per_tr.setdefault(d.get("tr", "tcp"), {"directions": 0, "send_results": {}, "deliveries": 0, "judged_no_loss": 0, "async_waited": 0})
+            pt["directions"] += 1
         elif d["e"] == "s":
             k = "%s:%s" % (d["m"], d["r"])
             res[k] = res.get(k, 0) + 1
+            pt["send_results"][k] = pt["send_results"].get(k, 0) + 1
             if d["m"] == "a" and d["r"] == "ok" and d["w"] >= 100:
                 waited += 1
+                pt["async_waited"] += 1
             cls = "over" if d["len"] > 1024 or False else ("tiny" if d["len"] < nu.HDR else "id")
             sizes[cls] = sizes.get(cls, 0) + 1
             cur.append((d["m"], d["r"], d["len"]))
         elif d["e"] == "d":
             cur.append(("d", d["m"], d["per"], d["n"]))
+            pt["deliveries"] += 1
         elif d["e"] == "end":
             full_end += 1 if d["open"] else 0
+            pt["judged_no_loss"] += 1 if d["open"] else 0
             cur.append(("end", d["open"]))
     if cur:
         distinct.add(hash(tuple(cur)))
     needed = ["s:ok", "s:clogged", "a:ok", "a:err"]
     missing = [k for k in needed if not res.get(k)]
+    for t in nu.TRANSPORTS:
+        q = per_tr.get(t, {})
+        missing += ["%s/%s" % (t, k) for k in needed if not q.get("send_results", {}).get(k)]
+        missing += ["%s/%s" % (t, k) for k in ("deliveries", "judged_no_loss", "async_waited") if not q.get(k)]
     if missing or not info["deliveries"] or not full_end or not waited:
         raise ToolError("data-plane cases never exercised on real nodes: %s deliveries=%s judged_noloss=%s async_waited=%s"
                         % (missing, info["deliveries"], full_end, waited))
@@ -167,6 +171,7 @@ def evidence(mc, gstats, summs, segs, info, nseg, nev, scripts):
         "generation": gstats,
         "harness": summs,
         "send_results": res,
+        "per_transport": per_tr,
         "async_sends_that_waited_100ms_for_capacity": waited,
         "directions": info,
         "streams_judged_for_no_loss": full_end,
